@@ -16,7 +16,7 @@ func usage() {
 }
 
 var props = map[string]propFn{
-	"C01": resumeProp([]int{kMsg}, 1500, 25000),
+	"C01": resumeProp([]int{kMsg}, 1200, 20000),
 	"C02": resumeProp(subKinds, 3000, 45000),
 	"C03": propC03,
 	"C04": propC04,
